@@ -209,12 +209,67 @@ def _const_sel(v):
     return None
 
 
-def check_function(fn_node):
+def _helper_bindings(fn_node, methods):
+    """a, b, c[, n ...] = self._helper(): the helper binds the corners itself and returns them (and values computed from them):
+    evaluate the helper and bind the returned tuple.  -> [(index of the statement, env, block)]"""
+    out = []
+    if not methods:
+        return out
+    for parent in ast.walk(fn_node):
+        for fld in ("body", "orelse"):
+            block = getattr(parent, fld, None)
+            if not (isinstance(block, list) and block and isinstance(block[0], ast.stmt)):
+                continue
+            for i, s in enumerate(block):
+                if not (isinstance(s, ast.Assign) and len(s.targets) == 1 and isinstance(s.targets[0], ast.Tuple)
+                        and isinstance(s.value, ast.Call) and isinstance(s.value.func, ast.Attribute) and isinstance(s.value.func.value, ast.Name)
+                        and s.value.func.value.id == "self" and not s.value.args and s.value.func.attr in methods):
+                    continue
+                h = methods[s.value.func.attr]
+                for (j, names, hblock) in _find_corner_bindings(h):
+                    env = {nm: _corner(k) for k, nm in enumerate(names)}
+                    ev = _Ev(env)
+                    ret = None
+                    for hs in hblock[j + 1:]:
+                        if isinstance(hs, ast.Assign) and len(hs.targets) == 1 and isinstance(hs.targets[0], ast.Name):
+                            try:
+                                env[hs.targets[0].id] = ev.ev(hs.value)
+                            except Skip:
+                                env.pop(hs.targets[0].id, None)
+                        elif isinstance(hs, ast.Return) and isinstance(hs.value, ast.Tuple):
+                            ret = hs.value
+                    if ret is None or len(ret.elts) != len(s.targets[0].elts):
+                        continue
+                    bound = {}
+                    for t, e in zip(s.targets[0].elts, ret.elts):
+                        if isinstance(t, ast.Name) and t.id != "_":
+                            try:
+                                bound[t.id] = ev.ev(e)
+                            except Skip:
+                                pass
+                    if bound:
+                        out.append((i, bound, block))
+    return out
+
+
+def check_function(fn_node, methods=None):
     """-> (n_values_checked, [(name, lineno, which transposition, 'asymmetric')])"""
     checked, bad = 0, []
-    for (i, names, block) in _find_corner_bindings(fn_node):
-        env = {nm: _corner(k) for k, nm in enumerate(names)}
+    starts = [(i, {nm: _corner(k) for k, nm in enumerate(names)}, block) for (i, names, block) in _find_corner_bindings(fn_node)]
+    starts += _helper_bindings(fn_node, methods)
+    for (i, env0, block) in starts:
+        env = dict(env0)
         ev = _Ev(env)
+        # values bound by a helper are judged as well
+        for tname0, val0 in list(env0.items()):
+            for c in val0[1]:
+                if _corners_of(c) == {"0", "1", "2"}:
+                    checked += 1
+                    for (a, b) in ((0, 1), (1, 2), (0, 2)):
+                        sw = _swap(c, a, b)
+                        if sw is not None and not (sw == c or (sw + c).is_zero()):
+                            bad.append((tname0, block[i].lineno, (a, b)))
+                            break
         for s in block[i + 1:]:
             if isinstance(s, ast.Assign) and len(s.targets) == 1 and isinstance(s.targets[0], ast.Name):
                 tname = s.targets[0].id
@@ -264,7 +319,11 @@ def report(res, index, targets, rule="SYM-1"):
             fn = p.getter if p is not None else None
         if fn is None or fn.cls is None or fn.cls.name != cname:
             continue
-        checked, bad = check_function(fn.node)
+        methods = {}
+        for c_ in reversed(cls.mro):
+            for name_, m_ in c_.methods.items():
+                methods[name_] = m_.node
+        checked, bad = check_function(fn.node, methods)
         k = f"{cname}.{member}"
         if bad:
             name, line, (a, b) = bad[0]
